@@ -221,7 +221,11 @@ def _roundtrip(spec: dict, tag: str, label: str, ctx: dict, feats: list[str], se
         return [core.viol(f"export crashed (not a controlled refusal) [{label}]", None, error=traceback.format_exc()[-500:], **ctx)], {"export_crashed": 1}, False
     counters["export_succeeded"] = 1
     try:
-        m2 = sbml.read(path)
+        with core.time_limit(40):  # pysbml's symbolic simplification can take minutes on some expressions; not a verdict
+            m2 = sbml.read(path)
+    except core.TimeLimit:
+        counters["read_budget_exhausted(skipped)"] = 1
+        return [], counters, False
     except Exception as e:  # noqa: BLE001
         return [core.viol(f"file written by sbml.write cannot be read back [{label}]", None, error=f"{type(e).__name__}: {e}"[:300], **ctx)], counters, True
     finally:
